@@ -188,7 +188,8 @@ Print Assumptions C12_hash_coherent_integer_boolean.
 
 (* ---- stringbuilder: refinement to the byte string, for every operation used within its documented
    protocol ([sb_op_ok]: at most the n prepared bytes are written before commit); [sb_wf] includes the NUL slot
-   (size < capacity, every byte from size on is zero) and capacity >= INIT_CAPACITY once allocated. *)
+   (size < capacity, every byte from size on is zero) and capacity >= INIT_CAPACITY once allocated.
+   With the repaired commit the refinement also covers BCommitOver (it traps, as the byte-string spec says). *)
 Theorem C12_stringbuilder_step_refines_bytes : forall (o : bop) (b : sb), sb_wf b -> sb_op_ok o ->
   match by_step o (sb_view b) with
   | Ok (l', r) => exists b', sb_step o b = Ok (b', r) /\ sb_wf b' /\ sb_view b' = l'
@@ -209,17 +210,19 @@ Theorem C12_stringbuilder_nul_slot : forall b : sb, sb_wf b -> sbdata b <> [] ->
 Proof. exact sb_nul_slot_zero. Qed.
 Print Assumptions C12_stringbuilder_nul_slot.
 
-(* the commit guard: the full-strength statement [sb_commit_guard_full] (committing more than the prepared span
-   is stopped) is FALSE on the unchanged code; the witness is replayed against the implementation on every
-   run (known finding); the strongest true restriction is proved. *)
-Theorem C12_stringbuilder_commit_guard_refuted : ~ sb_commit_guard_full.
-Proof. exact sb_commit_guard_refuted. Qed.
-Print Assumptions C12_stringbuilder_commit_guard_refuted.
-
-Theorem C12_stringbuilder_commit_guard_partial : forall (n d : nat) (b : sb), sb_wf b -> 0 < d ->
+(* the commit guard at full strength (repaired in /repo 8abaeda): committing more than the prepared span is
+   stopped; commit succeeds exactly when the NUL slot stays in place and then keeps the builder well formed. *)
+Theorem C12_stringbuilder_commit_guard : forall (n d : nat) (b : sb), sb_wf b ->
   sb_step (BCommitOver n d) b = Trap TrapNoSpace.
-Proof. exact sb_commit_guard_partial. Qed.
-Print Assumptions C12_stringbuilder_commit_guard_partial.
+Proof. exact sb_commit_guard. Qed.
+Print Assumptions C12_stringbuilder_commit_guard.
+
+Theorem C12_stringbuilder_commit_exact : forall (n : nat) (b : sb), sb_wf b ->
+  (n = 0 \/ sbsize b + n < length (sbdata b) ->
+     exists b', sb_commit n b = Ok b' /\ sb_wf b' /\ sbsize b' = sbsize b + n /\ sbdata b' = sbdata b) /\
+  (n <> 0 /\ length (sbdata b) <= sbsize b + n -> sb_commit n b = Trap TrapNoSpace).
+Proof. exact sb_commit_exact. Qed.
+Print Assumptions C12_stringbuilder_commit_exact.
 
 Theorem C12_stringbuilder_rollback_guard : forall (n : nat) (b : sb), sb_wf b -> sbsize b < n -> sb_rollback n b = Trap TrapNoSpace.
 Proof. exact sb_rollback_guard. Qed.
